@@ -54,6 +54,11 @@ def invalid_requests(lay):
     for n, bc in ((2, 2), (9, 1), (1, 0), (8, 2), (0, 0), (3, 255)):
         data_bits = [True] * (8 * bc)
         R(fc=15, address=lo, count=n, byte_count=bc, bits=data_bits)
+    # ... and a byte count that contradicts both the quantity and the amount of data that follows
+    for n, bc, nbytes in ((16, 1, 2), (9, 1, 2), (16, 3, 2), (8, 2, 1), (24, 2, 3), (1, 2, 1)):
+        R(fc=15, address=lo, count=n, byte_count=bc, bits=[True, False] * (4 * nbytes))
+    for n, bc, nregs in ((2, 2, 2), (2, 6, 2), (1, 4, 1), (3, 4, 3)):
+        R(fc=16, address=lo, count=n, byte_count=bc, registers=[0x7900 + i for i in range(nregs)])
     for n, bc in ((1, 4), (2, 2), (1, 0), (0, 0), (2, 6), (1, 254)):
         R(fc=16, address=lo, count=n, byte_count=bc, registers=[0x7700 + i for i in range(bc // 2)])
     # FC23: each range invalid in turn, each quantity outside its limit, byte count mismatch
